@@ -276,13 +276,14 @@ def analyze_changes(real, extra=()):
 
 def expected_changes(model, real, pending, begin=None, end=None):
     """The statement's right-hand side, over the real files (pending is the shown map)."""
-    if begin is None:
-        base = model.commits[model.cp[0]]
+    # a missing --begin means the checkpoint commit, a missing --end the working tree
+    base = model.commits[model.cp[0]] if begin is None else model.commits[begin]
+    if end is None:
         top = {p: (model.wt.get(p) if p in model.index else None) for p in set(base) | set(model.index)}
         tracked = {p for p in set(base) | set(model.index) if top.get(p) != base.get(p)}
     else:
-        tb, te = model.commits[begin], model.commits[end]
-        tracked = {p for p in set(tb) | set(te) if tb.get(p) != te.get(p)}
+        te = model.commits[end]
+        tracked = {p for p in set(base) | set(te) if base.get(p) != te.get(p)}
     untracked = {p for p in model.wt if p not in model.index and p not in IGNORED}
     out = set()
     for p in tracked | untracked:
@@ -306,9 +307,12 @@ def inv_c02(model, real, tier):
         for j in range(n):
             if i != j or n == 1:
                 ranges.append((i, j))
+    for i in range(n):
+        ranges.append((i, None))   # --begin alone: that commit .. working tree
+        ranges.append((None, i))   # --end alone: checkpoint .. that commit
     observed = None
     for (b, e) in ranges:
-        extra = [] if b is None else ["-b", real.commit_ids[b], "-e", real.commit_ids[e]]
+        extra = ([] if b is None else ["-b", real.commit_ids[b]]) + ([] if e is None else ["-e", real.commit_ids[e]])
         doc, res = analyze_changes(real, extra)
         evals += 1
         if doc is None:
@@ -316,7 +320,7 @@ def inv_c02(model, real, tier):
             continue
         got = [c["path"] for c in doc.get("changes") or []]
         want = expected_changes(model, real, pending, b, e)
-        if b is None:
+        if b is None and e is None:
             observed = got
         if sorted(set(got), key=lambda x: x.encode()) != want:
             missing = [p for p in want if p not in got]
@@ -328,7 +332,7 @@ def inv_c02(model, real, tier):
             else:
                 sig = "change-set-wrong"
             v.append((sig, "range %s: reported %s, expected %s (missing %s, extra %s)" % (
-                "checkpoint..worktree" if b is None else "c%d..c%d" % (b, e), got, want, missing, extra_p)))
+                "%s..%s" % ("checkpoint" if b is None else "c%d" % b, "worktree" if e is None else "c%d" % e), got, want, missing, extra_p)))
         elif got != sorted(got, key=lambda x: x.encode()):
             v.append(("unsorted", "range %s: %s" % ((b, e), got)))
     return v, evals, observed
@@ -775,24 +779,99 @@ def name_task(task):
         s.cleanup()
 
 
+UNTRACKED_DIRS = ["a/gen", "b/new dir", "b/deep/er/still", "top-level-dir", "a/caf\u00e9-dir"]
+
+
+def untracked_dir_task(task):
+    """A directory with no tracked file anywhere below it exists (with two files) when the checkpoint is
+    updated with --pending. C02: its files are reported one by one, verbatim. C07: right after the
+    update nothing is changed; a new file, a content change and a new file in its subdirectory each
+    re-flag exactly the targets of that path, and a second update clears them."""
+    idx, prop = task
+    d = UNTRACKED_DIRS[idx]
+    s = sc.Scratch("udir")
+    try:
+        real = Real(s)
+        r = real.r
+        v = []
+        evals = 0
+        if r.mr("checkpoint", "update").code != 0:
+            raise common.EngineError("checkpoint update failed")
+        f1, f2, f3 = d + "/one.txt", d + "/sub/two.txt", d + "/three.txt"
+        r.write(f1, "one\n")
+        r.write(f2, "two\n")
+
+        def changes():
+            doc = r.mr("analyze", "--changes").json()
+            return None if doc is None else [c["path"] for c in doc.get("changes") or []]
+
+        def targets():
+            doc = r.mr("analyze").json()
+            return None if doc is None else doc.get("targets")
+        got = changes()
+        evals += 1
+        if prop == "C02":
+            if got != sorted([f1, f2], key=lambda x: x.encode()):
+                v.append(("untracked-directory-not-listed-by-file", "untracked directory %r holding %s: analyze --changes reports %r" % (d, [f1, f2], got)))
+        else:
+            if targets() != image([f1, f2]):
+                v.append(("edit-flags-wrong-targets", "untracked directory %r: analyze reports %s, expected %s" % (d, targets(), image([f1, f2]))))
+            if r.mr("checkpoint", "update", "-p").code != 0:
+                v.append(("update-failed", "update -p failed with the untracked directory %r" % d))
+            t = targets()
+            evals += 1
+            if t != []:
+                v.append(("targets-after-pending-update", "untracked directory %r pending at update -p: analyze reports %s" % (d, t)))
+            for label, act, path in (("a new file inside it", lambda: r.write(f3, "three\n"), f3),
+                                     ("a changed file inside it", lambda: r.write(f1, "one, edited\n"), f1),
+                                     ("a second new file in its subdirectory", lambda: r.write(d + "/sub/four.txt", "four\n"), d + "/sub/four.txt")):
+                act()
+                t = targets()
+                evals += 1
+                want = image([path])
+                # (deleting a pending, never committed file is not covered by the statement: not tried)
+                if t != want:
+                    v.append(("edit-not-reflagged", "untracked directory %r pending at update -p, then %s: analyze reports %s, expected %s" % (d, label, t, want)))
+                if r.mr("checkpoint", "update", "-p").code != 0 or targets() != []:
+                    v.append(("second-update-does-not-clear", "untracked directory %r, %s, second update -p: analyze reports %s" % (d, label, targets())))
+        return {"violations": [{"sig": sig, "detail": dd, "rank": 75, "case": {"udir_case": [idx, prop]}} for sig, dd in v],
+                "evals": evals, "obs": None, "nontrivial": 1}
+    except common.EngineError as e:
+        return {"engine_error": "%s (untracked directory %r)" % (e, d)}
+    except Exception:
+        return {"engine_error": "untracked directory %r: %s" % (d, traceback.format_exc()[-1200:])}
+    finally:
+        s.cleanup()
+
+
 def inv_c05(model, real, tier):
     v = []
     r = real.r
-    a = r.mr("analyze", "--target-groups").json()
-    r.clear_traces()
-    res = r.mr("run", "-c", "build", env=r.trace_env())
-    doc = res.json()
-    if a is None or doc is None:
-        v.append(("run-or-analyze-failed", "analyze %s run exit %s %s" % (a, res.code, res.err[:200])))
-        return v, 2, None
-    groups = [sorted(g) for g in doc["results"][0]["target_groups"]] if doc["results"] else []
-    agroups = [sorted(g) for g in a["target_groups"]]
-    if groups != agroups:
-        v.append(("run-differs-from-analyze", "run groups %s vs analyze --target-groups %s (state checkpoint=%s)" % (groups, agroups, model.cp is not None)))
-    started = sorted(r.target_pair(t)[0] for t in r.traces())
-    if started != sorted(a["targets"]):
-        v.append(("started-set-differs", "started %s vs analyze targets %s" % (started, a["targets"])))
-    return v, 2, json.dumps(groups)
+    evals = 0
+    obs = None
+    variants = [[]]
+    if model.cp is not None:
+        # the same comparison with an explicit interval on both commands
+        variants += [["-e", real.commit_ids[0]], ["-b", real.commit_ids[0]], ["-b", real.commit_ids[0], "-e", real.commit_ids[-1]]]
+    for extra in variants:
+        a = r.mr("analyze", "--target-groups", *extra).json()
+        r.clear_traces()
+        res = r.mr("run", "-c", "build", *extra, env=r.trace_env())
+        doc = res.json()
+        evals += 2
+        if a is None or doc is None:
+            v.append(("run-or-analyze-failed", "%s: analyze %s run exit %s %s" % (extra, a, res.code, res.err[:200])))
+            continue
+        groups = [sorted(g) for g in doc["results"][0]["target_groups"]] if doc["results"] else []
+        agroups = [sorted(g) for g in a["target_groups"]]
+        if groups != agroups:
+            v.append(("run-differs-from-analyze", "%s: run groups %s vs analyze --target-groups %s (state checkpoint=%s)" % (extra, groups, agroups, model.cp is not None)))
+        started = sorted(r.target_pair(t)[0] for t in r.traces())
+        if started != sorted(a["targets"]):
+            v.append(("started-set-differs", "%s: started %s vs analyze targets %s" % (extra, started, a["targets"])))
+        if not extra:
+            obs = json.dumps(groups)
+    return v, evals, obs
 
 
 def state_task(task):
@@ -831,8 +910,8 @@ def state_task(task):
 
 
 RULES = {
-    "C02": "plus 9 sequences with surroundings outside the model (records of earlier successful / failed runs on disk, a log tail listener attached); plus an odd-file-name family (18 names: leading/trailing spaces, tab, newline, quote, backslash, non-ASCII, 200 characters, leading dash, glob characters), each untracked and tracked-modified; plus a many-pending-paths family (1..40 paths in quick, up to 600 in thorough, of mixed sizes, untracked / staged / modified / deleted at once); plus the size family of C07 judged on the reported change list (a pending file edited beyond a buffer/read boundary must be listed, restored content must be filtered); explicit-state BFS over operation sequences {write(p,c), delete(p), mv, git mv, add -A, commit, checkpoint update [-p] [--id k], checkpoint delete, out delete --all} on paths {a/f.txt, 'b/n e-acute.txt', b/m.txt}; state = (commits, index, worktree, checkpoint) with commit ids canonicalised to indices; each new state is materialised in a real repository (real git, real monorail) and, when a checkpoint exists, `analyze --changes` for the default range and every ordered pair of commits must equal the statement's set (content differs from base, plus untracked, minus pending-checksum matches), verbatim and sorted",
-    "C07": "plus 9 sequences with surroundings outside the model (records of earlier successful / failed runs on disk, a log tail listener attached); plus an odd-file-name family (18 names: leading/trailing spaces, tab, newline, quote, backslash, non-ASCII, 200 characters, leading dash, glob characters), each untracked and tracked-modified; plus a many-pending-paths family (1..40 paths in quick, up to 600 in thorough, of mixed sizes, untracked / staged / modified / deleted at once); plus the update-pair family of C19 judged on `analyze` after the second update -p; plus a size family: a pending file (untracked / modified / staged) of each size around the checksum buffer and read boundaries (65535..65537, 200000, 2 MiB+1; thorough more) must be clean after update -p and re-flagged by a one-byte edit at each boundary offset, an append and a truncation; same BFS; in every state reached by `checkpoint update -p`: analyze reports no targets and run starts nothing; then from that state every single later edit (fresh content for each path, new files, deletion of committed files; thorough: every pair) must re-flag exactly the targets of the edited paths, and a second update -p must clear them",
+    "C02": "plus wholly untracked directories (5 places: inside a target, nested three deep, name with a space / non-ASCII, outside every target) whose files must be listed one by one; plus 9 sequences with surroundings outside the model (records of earlier successful / failed runs on disk, a log tail listener attached); plus an odd-file-name family (18 names: leading/trailing spaces, tab, newline, quote, backslash, non-ASCII, 200 characters, leading dash, glob characters), each untracked and tracked-modified; plus a many-pending-paths family (1..40 paths in quick, up to 600 in thorough, of mixed sizes, untracked / staged / modified / deleted at once); plus the size family of C07 judged on the reported change list (a pending file edited beyond a buffer/read boundary must be listed, restored content must be filtered); explicit-state BFS over operation sequences {write(p,c), delete(p), mv, git mv, add -A, commit, checkpoint update [-p] [--id k], checkpoint delete, out delete --all} on paths {a/f.txt, 'b/n e-acute.txt', b/m.txt}; state = (commits, index, worktree, checkpoint) with commit ids canonicalised to indices; each new state is materialised in a real repository (real git, real monorail) and, when a checkpoint exists, `analyze --changes` for the default range, every ordered pair of commits as --begin/--end, and every commit as --begin alone (.. working tree) and as --end alone (checkpoint ..) must equal the statement's set (content differs from base, plus untracked, minus pending-checksum matches), verbatim and sorted",
+    "C07": "plus wholly untracked directories (5 places) pending at update -p: a new file, a changed file and a new file in a subdirectory must each re-flag; plus 9 sequences with surroundings outside the model (records of earlier successful / failed runs on disk, a log tail listener attached); plus an odd-file-name family (18 names: leading/trailing spaces, tab, newline, quote, backslash, non-ASCII, 200 characters, leading dash, glob characters), each untracked and tracked-modified; plus a many-pending-paths family (1..40 paths in quick, up to 600 in thorough, of mixed sizes, untracked / staged / modified / deleted at once); plus the update-pair family of C19 judged on `analyze` after the second update -p; plus a size family: a pending file (untracked / modified / staged) of each size around the checksum buffer and read boundaries (65535..65537, 200000, 2 MiB+1; thorough more) must be clean after update -p and re-flagged by a one-byte edit at each boundary offset, an append and a truncation; same BFS; in every state reached by `checkpoint update -p`: analyze reports no targets and run starts nothing; then from that state every single later edit (fresh content for each path, new files, deletion of committed files; thorough: every pair) must re-flag exactly the targets of the edited paths, and a second update -p must clear them",
     "C19": "plus 9 sequences with surroundings outside the model (records of earlier successful / failed runs on disk, a log tail listener attached); plus a many-pending-paths family (1..40 paths in quick, up to 600 in thorough, of mixed sizes, untracked / staged / modified / deleted at once); plus an update-pair family: worktree set to pending configuration S1 (each of a/f.txt, b/m.txt, a/g.txt absent or with one of two contents), `update -p`, worktree set to S2, second update (-p or plain) for every pair (S1,S2) (quick: at most two pending paths each): show must equal what the second update printed; same BFS; from every state (quick: every state whose last operation touched the store) a suffix probe update, update -p, delete: show follows each update and afterwards no checkpoint exists; in every state `checkpoint show` must equal what the last successful update printed (or fail when deleted / never set); updates must record HEAD or the given --id; without a checkpoint analyze reports checkpointed=false with every target and run covers every target",
     "C05": "plus 9 sequences with surroundings outside the model (records of earlier successful / failed runs on disk, a log tail listener attached); same BFS (part B of C05): in every state `analyze --target-groups` then `run -c build` in trace mode must agree on groups and started targets",
 }
@@ -960,6 +1039,14 @@ def bfs(prop, tier, depth, wall_cap=None):
             agg["distinct_nontrivial"] += r["nontrivial"]
             agg["violations"].extend(r["violations"])
         agg["odd_name_cases"] = len(tasks)
+        tasks = [(i, prop) for i in range(len(UNTRACKED_DIRS))]
+        for r in common.pmap(untracked_dir_task, tasks):
+            if "engine_error" in r:
+                raise common.EngineError(r["engine_error"])
+            agg["evaluations"] += r["evals"]
+            agg["distinct_nontrivial"] += r["nontrivial"]
+            agg["violations"].extend(r["violations"])
+        agg["untracked_directory_cases"] = len(tasks)
     agg["depth_completed"] = completed_depth
     agg["distinct_observations"] = len(observations)
     agg["alphabet"] = {k: v for k, v in alphabet.items()}
@@ -986,8 +1073,8 @@ def run(prop, tier):
 
 def replay(prop, path):
     body = json.load(open(path))
-    if "many_case" in body["case"] or "name_case" in body["case"]:
-        r1 = many_task(tuple(body["case"]["many_case"])) if "many_case" in body["case"] else name_task(tuple(body["case"]["name_case"]))
+    if "many_case" in body["case"] or "name_case" in body["case"] or "udir_case" in body["case"]:
+        r1 = many_task(tuple(body["case"]["many_case"])) if "many_case" in body["case"] else name_task(tuple(body["case"]["name_case"])) if "name_case" in body["case"] else untracked_dir_task(tuple(body["case"]["udir_case"]))
         if "engine_error" in r1:
             print("ENGINE:", r1["engine_error"])
             return 2
